@@ -168,9 +168,67 @@ func c11R1(c *Ctx) {
 			c.verdict(okc, rule, key, c.instrPos(ta), d, d)
 		})
 	}
+	// "must" helpers of libraries panic on the error they are handed: the same obligation as an explicit panic
+	nM := 0
+	for _, fn := range pfns {
+		eachInstr(fn, func(r instrRef) {
+			call, ok := r.I.(*ssa.Call)
+			if !ok {
+				return
+			}
+			name := calleeName(call.Common())
+			isMust := strings.HasPrefix(name, "go.arcalot.io/lang.Must") || name == "regexp.MustCompile" || name == "regexp.MustCompilePOSIX" || name == "text/template.Must" || name == "html/template.Must"
+			if !isMust {
+				return
+			}
+			// inputs that are all compile-time constants behave identically at every start-up
+			allConst := true
+			var visit func(v ssa.Value, d int)
+			visit = func(v ssa.Value, d int) {
+				if d > 4 || !allConst {
+					return
+				}
+				switch x := v.(type) {
+				case *ssa.Const:
+				case *ssa.Extract:
+					visit(x.Tuple, d+1)
+				case *ssa.Call:
+					for _, a := range x.Common().Args {
+						visit(a, d+1)
+					}
+					if x.Common().IsInvoke() {
+						allConst = false
+					}
+				default:
+					allConst = false
+				}
+			}
+			for _, a := range call.Common().Args {
+				visit(a, 0)
+			}
+			if allConst {
+				return
+			}
+			nM++
+			key := "must@" + c.fnName(fn) + "#" + sanitize(name)
+			seenKey[key]++
+			if seenKey[key] > 1 {
+				key = fmt.Sprintf("%s#%d", key, seenKey[key])
+			}
+			if reason, ok := c.tabledS(c11MustTable, fn, "|"+name); ok {
+				c.ok(rule, key, c.instrPos(call), "tabled: "+reason, false)
+				return
+			}
+			c.bad(rule, key, c.instrPos(call), fmt.Sprintf("%s panics on the error of an operation on run-time data and is reachable while parsing/preparing a workflow: file contents that make the operation fail crash the parser instead of yielding an error", name))
+		})
+	}
+	c.Stats["c11_must_calls"] = nM
 	c.minCount(rule, "explicit panics in parse/prepare", nP, 4)
 	c.minCount(rule, "unchecked assertions in parse/prepare", nA, 15)
 }
+
+// must-helper calls on run-time data in the parse/prepare paths: function|callee -> why the error cannot occur
+var c11MustTable = map[string]string{}
 
 // sharedPanicHelper: fn is called (statically, 2-4 sites, never as a value) only by functions that each have exactly one
 // tabled panic, all with the same reason, whose message starts with the literal prefix (up to the first %) of msg.
